@@ -456,7 +456,15 @@ func (g G) Statement(kind string, depth int) []*Node {
 		var cases []*Node
 		for i := 0; i < ncase; i++ {
 			op := pick(c, "case.op"+strconv.Itoa(i), "==", "~")
-			test := N("InfixExpression", "Left", nil, "Operator", op, "Explicit", false, "Right", Str("c"+strconv.Itoa(i)))
+			label := "c" + strconv.Itoa(i)
+			if i > 0 && c.Bool("case.samelabel"+strconv.Itoa(i)) {
+				// the same label text as the first case, under the other operator: not a duplicate
+				label = "c0"
+				if cases[0].Child("Test").Str("Operator") == op {
+					op = map[string]string{"==": "~", "~": "=="}[op]
+				}
+			}
+			test := N("InfixExpression", "Left", nil, "Operator", op, "Explicit", false, "Right", Str(label))
 			var body []*Node
 			ft := false
 			switch c.Choose(4, "case.body"+strconv.Itoa(i)) {
@@ -689,6 +697,8 @@ func LiteralTable() []*Node {
 		Prefix("-", IntSrc("0x8000000000000000", math.MinInt64)), Prefix("-", IntSrc("9223372036854775808", math.MinInt64)),
 		Prefix("-", IntSrc("1", 1)),
 		FloatSrc("1e3", 1000), FloatSrc("1.5e-3", 0.0015), FloatSrc("1e+3", 1000), FloatSrc("10.0", 10), FloatSrc("0x1.8p3", 12), FloatSrc("0xA.B", 10.6875), FloatSrc("0xA.Bp3", 85.5), FloatSrc("0.5", 0.5),
+		// upper-case prefix combined with a hex fraction, with and without exponent (upper-case exponent markers are not documented: left out)
+		FloatSrc("0X1.8", 1.5), FloatSrc("0XA.B", 10.6875), FloatSrc("0X1.8p1", 3), FloatSrc("0XAp0", 10),
 		RTime("100ms"), RTime("1s"), RTime("5m"), RTime("2h"), RTime("3d"), RTime("1y"), RTime("1.5s"),
 		StrSrc("%41", "A"), StrSrc("%u0041", "A"), StrSrc("%u{41}", "A"), StrSrc("%u{1F600}", "\U0001F600"), StrSrc("%E3%81%82", "あ"), StrSrc("a%25b", "a%b"),
 		StrSrc("100%", "100%").Hint("mayreject", "1"),
